@@ -27,7 +27,7 @@ open Frp.Gen.LockFacts
 /-! ## 1. Lock discipline of the shared tables -/
 
 /-- `false` = /repo as it is (hooks/C16-fix-precheck-lock.patch not applied) -/
-def precheckLockIsFixed : Bool := false
+def precheckLockIsFixed : Bool := true
 
 /-- §7 #6: the pre-check branch of HandleVisitor -/
 def exc6 : String × String × String :=
